@@ -632,7 +632,12 @@ def to_numeric(arg, errors="raise", downcast=None, **kw):
                     break
             if ints is not None:
                 out = ints
-        return arg._new(out, dtype=None)
+        dt = None
+        if downcast == "integer" and out and infer_dtype(out) == "int64":
+            from .pdcore import smallest_int_dtype
+            dt = smallest_int_dtype(out)
+            dt = None if dt == "int64" else dt
+        return arg._new(out, dtype=dt)
     if isinstance(arg, (list, tuple)):
         return to_numeric(Series(list(arg)), errors, downcast).values
     return arg
